@@ -247,6 +247,14 @@ def check_history(world, history, res, tag, versions="increasing", on_disk=None)
                 res.violation("wrong-version", "version", {"sent": version, "published": mine[0]["params"].get("version")}, case)
                 ok = False
             got = tuple(sorted(diag_key(d) for d in mine[0]["params"]["diagnostics"] if d.get("code") not in IGNORED_CODES))
+            # ground truth that needs no reference: a document that cannot be tokenized or parsed is told so, whatever else
+            # is open (the references are executions of the same code and would lose the diagnostic in the same way)
+            own = {1: "P0031", 2: "P0002", 7: "P0031", 8: "P0002", 9: "P0002", 10: "P0002"}
+            for idx_, code_ in own.items():
+                if text == world.texts[u][idx_] and not any(d_.get("code") == code_ for d_ in mine[0]["params"]["diagnostics"]):
+                    res.violation("differs-from-check", "own-problem-not-reported:%s:%s" % (TEXT_NAMES[idx_], code_),
+                                  {"published": got, "state": sorted("%s=%s" % (k, classify(world, k, v)) for k, v in state.items())}, case)
+                    ok = False
             names = "+".join(sorted("%s=%s" % (k, classify(world, k, v)) for k, v in state.items())) + \
                 (":after-close" if closed_once and not world.workspace else "")
             # ground truth that needs no reference: a diagnostic about SharedName starts where this document spells it
